@@ -124,7 +124,7 @@ def check(smi, r):
             x = _SF.encoder(smi, strict=True)
             got = "ok"
         except _SF.EncoderError as e:
-            got = "constraint" if "semantic constraints" in str(e) else "other-EncoderError"
+            got = "raised"      # every enumerated molecule is valid and non-aromatic: the only legitimate reason is the table
             x = None
         except Exception as e:
             got = "escaped:" + type(e).__name__
@@ -137,7 +137,7 @@ def check(smi, r):
             ok = False
             r.violation("strict-rejects-valid-molecule:" + got, case,
                         "encoder(%r, strict=True) raised (%s) although no atom exceeds its capacity under %r" % (smi, got, tn))
-        elif over and got not in ("constraint",):
+        elif over and got != "raised":
             ok = False
             r.violation("strict-wrong-error:" + got, case, "encoder(%r, strict=True): %s" % (smi, got))
         elif over:
